@@ -10,25 +10,23 @@ Definition sg_fits (g : cfg) (r : wr_request) : bool :=
   (length (wr_ser_request_line (wq_method r) (wq_uri r) (wq_protocol r)) + 2 <=? g_field_limit_hard g)%nat &&
   sg_fit (g_field_limit_hard g) 0 (wq_fields r).
 
-Section Run.
-Variable cb : cb_oracle.
+Section RunTx.
 Variable g : cfg.
-Hypothesis Hcb : wr_all_ok cb.
 Hypothesis Hspace : g_allow_space_uri g = false.
+Variable k : nat.                                    (* the number of the transaction on its connection *)
 Variables m u pr : bytes.
 Variable fs : list wr_field.
 Hypothesis Wl : wr_wf_request_line m u pr = true.
 Hypothesis Wb : wr_block_ok fs = true.
 Hypothesis Wnf : existsb (fun f => wr_same (wf_name f) wr_str_content_length || wr_same (wf_name f) wr_str_transfer_encoding) fs = false.
-Hypothesis Wc : wr_eqb m wr_str_connect = false.
 
-Let line0 := wr_ser_request_line m u pr.
-Let sg_th0 := sg_th0 g m u pr.
-(* the transaction at the end of the request *)
+Let sg_th0 := sg_th0 g k m u pr.
+(* the transaction when the request has been seen up to its empty line, and at the end of the request *)
+Definition sg_tpre (fl : bool) : tx :=
+  sg_hdr_end (if fl then tx_set_flag c_HTP_MULTI_PACKET_HEAD (wr_block_tx fs sg_th0) else wr_block_tx fs sg_th0).
 Definition sg_tfin (fl : bool) : tx :=
   (sg_hdr_end (if fl then tx_set_flag c_HTP_MULTI_PACKET_HEAD (wr_block_tx fs sg_th0) else wr_block_tx fs sg_th0))
     <| t_request_progress := c_HTP_REQUEST_COMPLETE |>.
-Definition sg_fin (txs : list (option tx)) : Prop := exists fl, txs = [Some (sg_tfin fl)].
 
 Lemma sg_okf : forallb wr_field_ok fs = true.
 Proof. unfold wr_block_ok in Wb. apply andb_prop in Wb. apply Wb. Qed.
@@ -38,8 +36,8 @@ Lemma sg_th0_facts :
   t_request_progress sg_th0 = c_HTP_REQUEST_HEADERS /\ t_response_progress sg_th0 = c_HTP_RESPONSE_NOT_STARTED /\
   (exists nu, t_parsed_uri sg_th0 = Some nu).
 Proof.
-  destruct (sg_tx_line_facts g Hspace wr_t1 m u pr Wl eq_refl) as (_ & F & H1 & H2 & _ & H4 & H5). cbv zeta in *.
-  unfold sg_th0, PSegGen.sg_th0. revert F H1 H2 H4 H5. generalize (sg_tx_line g wr_t1 (wr_ser_request_line m u pr)). intros X F H1 H2 H4 H5.
+  destruct (sg_tx_line_facts g Hspace (sg_t1 k) m u pr Wl eq_refl) as (_ & F & H1 & H2 & _ & H4 & H5). cbv zeta in *.
+  unfold sg_th0, PSegGen.sg_th0. revert F H1 H2 H4 H5. generalize (sg_tx_line g (sg_t1 k) (wr_ser_request_line m u pr)). intros X F H1 H2 H4 H5.
   split; [exact F|]. split; [exact H1|]. split; [exact H2|]. split; [reflexivity|]. split; [exact H4|exact H5].
 Qed.
 
@@ -59,16 +57,14 @@ Proof.
   split; [exists nu; rewrite K10; exact H5|]. split; assumption.
 Qed.
 
-(* ---- after the empty line: htp_tx_state_request_headers, REQ_CONNECT_CHECK, REQ_BODY_DETERMINE, REQ_FINALIZE, REQ_IDLE ---- *)
-Lemma sg_tail c c1 d f : c_in_state c = REQ_HEADERS ->
-  rq_state_fn cb g REQ_HEADERS c = rq_with_tx (tx_state_request_headers cb) c1 ->
-  sg_cin c1 d (length d) [] None REQ_HEADERS (Some REQ_HEADERS) (Some H_REQUEST_HEADER_DATA) (wr_block_tx fs sg_th0) ->
-  exists cF rc, rq_loop cb g (5 + f) false c = (cF, rc) /\ sg_fin (c_txs cF).
+(* ... and when REQ_FINALIZE is reached *)
+Lemma sg_tpre_facts fl : wr_eqb m wr_str_connect = false ->
+  (t_request_method_number (sg_tpre fl) =? c_HTP_M_CONNECT)%Z = false /\ t_request_transfer_coding (sg_tpre fl) = c_HTP_CODING_NO_BODY /\
+  t_request_progress (sg_tpre fl) = c_HTP_REQUEST_HEADERS /\ (t_response_progress (sg_tpre fl) =? c_HTP_RESPONSE_COMPLETE)%Z = false /\
+  t_is_protocol_0_9 (sg_tpre fl) = false.
 Proof.
-  intros Es Ef H1. destruct sg_tb_facts as (M & Z9 & Pg & Rp & (nu & Pu) & N1 & N2). cbv zeta in *.
+  intros Wc. destruct sg_tb_facts as (M & Z9 & Pg & Rp & _ & N1 & N2). cbv zeta in *. unfold sg_tpre.
   set (tb := wr_block_tx fs sg_th0) in *.
-  unfold rq_with_tx in Ef. rewrite (ci_tx _ _ _ _ _ _ _ _ _ H1) in Ef.
-  destruct (sg_state_request_headers cb Hcb c1 d _ _ tb nu H1 Pg Pu) as (c2 & fl & E2 & H2). rewrite E2 in Ef.
   set (t5 := if fl then tx_set_flag c_HTP_MULTI_PACKET_HEAD tb else tb) in *.
   assert (K5 : wr_keep t5 tb) by (unfold t5; destruct fl; [unfold tx_set_flag; wr_keep_now|apply wr_keep_refl]).
   assert (Hh5 : t_request_headers t5 = t_request_headers tb) by (unfold t5; destruct fl; reflexivity).
@@ -76,19 +72,77 @@ Proof.
   set (t6 := sg_hdr_end t5) in *.
   assert (K : wr_keep t6 tb) by (eapply wr_keep_trans; [exact K6|exact K5]).
   unfold wr_keep in K. destruct K as (K1 & K2 & K3 & K4 & K5' & K6' & K7 & K8 & K9 & K10 & K11).
+  split; [rewrite K2, M; apply wr_not_connect; exact Wc|]. split; [exact TC|]. split; [rewrite K9; exact Pg|].
+  split; [rewrite K10, Rp; reflexivity|rewrite K6'; exact Z9].
+Qed.
+End RunTx.
+
+Section Run.
+Variable cb : cb_oracle.
+Variable g : cfg.
+Hypothesis Hcb : wr_all_ok cb.
+Hypothesis Hspace : g_allow_space_uri g = false.
+Variables m u pr : bytes.
+Variable fs : list wr_field.
+Hypothesis Wl : wr_wf_request_line m u pr = true.
+Hypothesis Wb : wr_block_ok fs = true.
+Hypothesis Wnf : existsb (fun f => wr_same (wf_name f) wr_str_content_length || wr_same (wf_name f) wr_str_transfer_encoding) fs = false.
+Hypothesis Wc : wr_eqb m wr_str_connect = false.
+Context {w : sg_world}.
+Notation sg_cin := (sg_cinw w).
+Let k := length (w_done w).
+
+(* ---- after the empty line: htp_tx_state_request_headers, REQ_CONNECT_CHECK, REQ_BODY_DETERMINE lead to REQ_FINALIZE ---- *)
+Lemma sg_tail_fin c c1 d rd1 : c_in_state c = REQ_HEADERS ->
+  rq_state_fn cb g REQ_HEADERS c = rq_with_tx (tx_state_request_headers cb) c1 ->
+  sg_cin c1 d rd1 [] None REQ_HEADERS (Some REQ_HEADERS) (Some H_REQUEST_HEADER_DATA) (wr_block_tx fs (sg_th0 g k m u pr)) ->
+  exists c5 fl, (forall f, rq_loop cb g (3 + f) false c = rq_loop cb g f false c5) /\
+    sg_cin c5 d rd1 [] None REQ_FINALIZE (Some REQ_FINALIZE) None (sg_tpre g k m u pr fs fl).
+Proof.
+  intros Es Ef H1. destruct (sg_tb_facts g Hspace k m u pr fs Wl Wb Wnf) as (_ & _ & Pg & _ & (nu & Pu) & _ & _). cbv zeta in *.
+  set (tb := wr_block_tx fs (sg_th0 g k m u pr)) in *.
+  unfold rq_with_tx in Ef. rewrite (ci_tx _ _ _ _ _ _ _ _ _ H1) in Ef.
+  destruct (sg_state_request_headers cb Hcb c1 d _ _ tb nu H1 Pg Pu) as (c2 & fl & E2 & H2). rewrite E2 in Ef.
+  fold (sg_tpre g k m u pr fs fl) in H2.
+  destruct (sg_tpre_facts g Hspace k m u pr fs Wl Wb Wnf fl Wc) as (M6 & TC & _).
   rewrite <- Es in Ef.
   destruct (sg_iter_ok cb g c c2 d _ _ _ _ _ _ _ Ef H2) as (c3 & E3 & H3); [discriminate|].
-  change (5 + f)%nat with (S (S (S (S (S f))))). rewrite (sg_rq_loop_inr cb g _ _ _ E3).
-  assert (M6 : (t_request_method_number t6 =? c_HTP_M_CONNECT)%Z = false) by (rewrite K2, M; apply wr_not_connect; exact Wc).
-  destruct (sg_pass_connect_check cb g c3 d _ _ _ _ t6 H3 M6) as (c4 & E4 & H4). rewrite (sg_rq_loop_inr cb g _ _ _ E4).
-  destruct (sg_pass_body_determine cb g c4 d _ _ _ _ t6 H4 TC) as (c5 & E5 & H5). rewrite (sg_rq_loop_inr cb g _ _ _ E5).
-  assert (Pg6 : t_request_progress t6 = c_HTP_REQUEST_HEADERS) by (rewrite K9; exact Pg).
-  assert (Rp6 : (t_response_progress t6 =? c_HTP_RESPONSE_COMPLETE)%Z = false) by (rewrite K10, Rp; reflexivity).
-  assert (Z6 : t_is_protocol_0_9 t6 = false) by (rewrite K6'; exact Z9).
-  destruct (sg_pass_finalize cb g Hcb c5 d _ _ t6 H5 TC Pg6 Rp6 Z6) as (c6 & E6 & Dn & St6 & Ln6 & Rd6 & Rh6). rewrite (sg_rq_loop_inr cb g _ _ _ E6).
-  rewrite (sg_rq_loop_inl cb g _ _ _ (sg_pass_idle_end cb g c6 _ (length d) Dn St6 Ln6 Rd6 Rh6)).
-  eexists _, _. split; [reflexivity|]. exists fl. change (c_txs (c6 <| c_in_status := c_HTP_STREAM_DATA |>)) with (c_txs c6). apply (dn_txs _ _ Dn).
+  destruct (sg_pass_connect_check cb g c3 d _ _ _ _ _ H3 M6) as (c4 & E4 & H4).
+  destruct (sg_pass_body_determine cb g c4 d _ _ _ _ _ H4 TC) as (c5 & E5 & H5).
+  exists c5, fl. split; [|exact H5]. intros f. change (3 + f)%nat with (S (S (S f))).
+  rewrite (sg_rq_loop_inr cb g _ _ _ E3), (sg_rq_loop_inr cb g _ _ _ E4), (sg_rq_loop_inr cb g _ _ _ E5). reflexivity.
 Qed.
+
+(* ... and, when the chunk ends there, REQ_FINALIZE completes the request and REQ_IDLE returns HTP_STREAM_DATA *)
+Lemma sg_tail c c1 d f : c_in_state c = REQ_HEADERS ->
+  rq_state_fn cb g REQ_HEADERS c = rq_with_tx (tx_state_request_headers cb) c1 ->
+  sg_cin c1 d (length d) [] None REQ_HEADERS (Some REQ_HEADERS) (Some H_REQUEST_HEADER_DATA) (wr_block_tx fs (sg_th0 g k m u pr)) ->
+  exists cF rc fl, rq_loop cb g (5 + f) false c = (cF, rc) /\ c_txs cF = w_done w ++ [Some (sg_tfin g k m u pr fs fl)].
+Proof.
+  intros Es Ef H1. destruct (sg_tail_fin c c1 d _ Es Ef H1) as (c5 & fl & St & H5).
+  destruct (sg_tpre_facts g Hspace k m u pr fs Wl Wb Wnf fl Wc) as (_ & TC & Pg6 & Rp6 & Z6).
+  change (5 + f)%nat with (3 + (2 + f))%nat. rewrite St. change (2 + f)%nat with (S (S f)).
+  destruct (sg_pass_finalize cb g Hcb c5 d _ _ H5 TC Pg6 Rp6 Z6) as (c6 & E6 & H6). rewrite (sg_rq_loop_inr cb g _ _ _ E6).
+  rewrite (sg_rq_loop_inl cb g _ _ _ (sg_pass_idle_end cb g c6 d _ _ _ _ H6)).
+  eexists _, _, fl. split; [reflexivity|]. change (c_txs (c6 <| c_in_status := c_HTP_STREAM_DATA |>)) with (c_txs c6). apply (il_txs _ _ _ _ _ _ _ H6).
+Qed.
+End Run.
+
+Section Run0.
+Variable cb : cb_oracle.
+Variable g : cfg.
+Hypothesis Hcb : wr_all_ok cb.
+Hypothesis Hspace : g_allow_space_uri g = false.
+Variables m u pr : bytes.
+Variable fs : list wr_field.
+Hypothesis Wl : wr_wf_request_line m u pr = true.
+Hypothesis Wb : wr_block_ok fs = true.
+Hypothesis Wnf : existsb (fun f => wr_same (wf_name f) wr_str_content_length || wr_same (wf_name f) wr_str_transfer_encoding) fs = false.
+Hypothesis Wc : wr_eqb m wr_str_connect = false.
+Notation sg_cin := (sg_cinw sg_w0).
+Let line0 := wr_ser_request_line m u pr.
+Let sg_th0 := sg_th0 g 0 m u pr.
+Definition sg_fin (txs : list (option tx)) : Prop := exists fl, txs = [Some (sg_tfin g 0 m u pr fs fl)].
 
 (* ---- a call that starts (or continues) in REQ_HEADERS ---- *)
 Lemma sg_call_hdrs c d rd p hdr t rw' f :
@@ -98,7 +152,7 @@ Lemma sg_call_hdrs c d rd p hdr t rw' f :
 Proof.
   intros H (fs_done & fs_rem & q & Efs & Hfl & Hpq & Hq & Hw & Hfit).
   assert (Ok : forallb wr_field_ok fs_rem = true).
-  { pose proof sg_okf as O. rewrite Efs, forallb_app in O. apply andb_prop in O. apply O. }
+  { pose proof (sg_okf fs Wb) as O. rewrite Efs, forallb_app in O. apply andb_prop in O. apply O. }
   assert (Es : c_in_state c = REQ_HEADERS) by apply (ci_state _ _ _ _ _ _ _ _ _ H).
   assert (Ef : rq_state_fn cb g REQ_HEADERS c = REQ_HEADERS_loop cb g (length d - rd) c).
   { cbn [rq_state_fn]. unfold REQ_HEADERS_fn. rewrite (ci_len _ _ _ _ _ _ _ _ _ H), (ci_read _ _ _ _ _ _ _ _ _ H). reflexivity. }
@@ -111,16 +165,15 @@ Proof.
     + change (6 + f)%nat with (S (5 + f)). apply sg_rq_loop_inl. unfold rq_iter. rewrite Es, Ef, EA, EF. reflexivity.
     + left. split; [exact HA3|]. right. left. exists p', hdr', t'. split; [exact HF|exact HA2].
   - destruct HB as (c' & EB & HB1 & HB2). rewrite <- Efs in HB1. rewrite <- Ef in EB.
-    destruct (sg_tail c c' d (1 + f) Es EB HB1) as (cF & rc & E & T).
-    exists cF, rc. split; [exact E|]. right. split; [exact HB2|exact T].
+    destruct (sg_tail cb g Hcb Hspace m u pr fs Wl Wb Wnf Wc c c' d (1 + f) Es EB HB1) as (cF & rc & fl & E & T).
+    exists cF, rc. split; [exact E|]. right. split; [exact HB2|]. exists fl. exact T.
 Qed.
-
 
 (* ---- every chunking of the request, from htp_connp_open on ---- *)
 Lemma sg_run_all_chunks (chunks : list bytes) :
   (length (wr_ser_request_line m u pr) + 2 <= g_field_limit_hard g)%nat -> sg_fit (g_field_limit_hard g) 0 fs = true ->
   Forall (fun x => x <> []) chunks -> concat chunks = line0 ++ [CR; LF] ++ wr_block_wire fs ++ [CR; LF] ->
-  exists fl, c_txs (fst (cp_run cb g connp_new (OpOpen :: map OpReqData chunks))) = [Some (sg_tfin fl)].
+  exists fl, c_txs (fst (cp_run cb g connp_new (OpOpen :: map OpReqData chunks))) = [Some (sg_tfin g 0 m u pr fs fl)].
 Proof.
   intros Hlim0 Hfit0 Hall Hc.
   apply (sg_all_chunks cb g Hcb Hspace m u pr Wl Hlim0 (wr_block_wire fs ++ [CR; LF]) (sg_hlog g sg_th0 fs) sg_fin (fun _ _ => False));
@@ -128,14 +181,14 @@ Proof.
   exists [], fs, (sg_next fs). split; [reflexivity|]. split; [reflexivity|]. split; [reflexivity|]. split; [apply sg_next_ne|].
   split; [apply sg_wire_split|exact Hfit0].
 Qed.
-End Run.
+End Run0.
 
 (* ================= the theorems on the wire grammar ================= *)
 (* the transaction a grammar request has to produce (as the single-chunk run produces it) *)
-Definition sg_tref (g : cfg) (r : wr_request) : tx := sg_tfin g (wq_method r) (wq_uri r) (wq_protocol r) (wq_fields r) false.
+Definition sg_tref (g : cfg) (r : wr_request) : tx := sg_tfin g 0 (wq_method r) (wq_uri r) (wq_protocol r) (wq_fields r) false.
 
-Lemma sg_mask_tfin g m u pr fs fl : sg_mask (sg_tfin g m u pr fs fl) = sg_mask (sg_tfin g m u pr fs false).
-Proof. unfold sg_tfin. destruct fl; [|reflexivity]. rewrite !sg_mask_progress, sg_mask_hdr_end_flag. reflexivity. Qed.
+Lemma sg_mask_tfin g k m u pr fs fl : sg_mask (sg_tfin g k m u pr fs fl) = sg_mask (sg_tfin g k m u pr fs false).
+Proof. unfold sg_tfin, sg_tpre. destruct fl; [|reflexivity]. rewrite !sg_mask_progress, sg_mask_hdr_end_flag. reflexivity. Qed.
 
 (* C03, request direction, on the wire grammar: whatever the TCP segmentation of a well-formed request without body,
    the reported transaction is the same up to HTP_MULTI_PACKET_HEAD *)
@@ -150,7 +203,7 @@ Proof.
   apply negb_true_iff in Wnf. apply negb_true_iff in Wc.
   unfold sg_fits in Hf. cbn [wq_method wq_uri wq_protocol wq_fields] in Hf. apply andb_prop in Hf. destruct Hf as [Hl0 Hfit]. apply Nat.leb_le in Hl0.
   destruct (sg_run_all_chunks cb g Hcb Hsp m u p fs Wl Wb Wnf Wc chunks Hl0 Hfit Hall Hc) as (fl & T).
-  exists (sg_tfin g m u p fs fl). split; [exact T|]. unfold sg_tref. cbn [wq_method wq_uri wq_protocol wq_fields]. apply sg_mask_tfin.
+  exists (sg_tfin g 0 m u p fs fl). split; [exact T|]. unfold sg_tref. cbn [wq_method wq_uri wq_protocol wq_fields]. apply sg_mask_tfin.
 Qed.
 
 (* the same as an equation between two runs (the statement of Properties_C03: c03_obs) *)
